@@ -21,7 +21,7 @@ C06_CLAUSES = {"FlowsNonNeg", "OnlyDairyExports", "TransferConserved", "HoursWit
 QUICK_CC = ["ARG", "USA", "IND", "CHN", "NZL", "DJI", "LSO", "EST", "SLV", "ECU", "JPN", "ZAF", "WOR", "MNG", "SAU", "MLI", "GEO", "SWT", "LUX"]
 STRATS = ["baseline", "reduced", "feed_only_ruminants"]
 SERIES = [("zero", "zero"), ("partial", "partial"), ("rand", "rand"), ("ample", "zero"), ("drop", "ramp"),
-          ("ramp", "drop"), ("zero", "ample"), ("rand", "partial")]
+          ("ramp", "drop"), ("zero", "ample"), ("rand", "partial"), ("stop", "zero")]
 
 
 def all_countries():
